@@ -445,6 +445,163 @@ pub fn base_scope() -> (Scope, Vars, Vec<FeelContext>) {
   (scope, vars, vec![bottom, top])
 }
 
+/// Scopes with the same *visible bindings* as the base scope (for every name the top-down lookup
+/// gives the same value) and other shapes: all entries in one context, split over two and over
+/// three contexts, an empty context underneath, and shadowed entries underneath (other values
+/// for the same names — among them contexts under names whose visible value is not a context,
+/// and contexts with other keys under names whose visible value is a context).
+pub fn shaped_scopes(rng: &mut Rng) -> Vec<(&'static str, Vec<FeelContext>)> {
+  let (_, _, ctxs) = base_scope();
+  let mut flat = FeelContext::default();
+  for c in &ctxs {
+    for (k, v) in c.get_entries() {
+      flat.set_entry(k, v.clone());
+    }
+  }
+  let entries: Vec<(Name, Value)> = flat.get_entries().into_iter().map(|(k, v)| (k.clone(), v.clone())).collect();
+  let split = |rng: &mut Rng, n: u64| -> Vec<FeelContext> {
+    let mut parts: Vec<FeelContext> = (0..n).map(|_| FeelContext::default()).collect();
+    for (k, v) in &entries {
+      parts[rng.below(n) as usize].set_entry(k, v.clone());
+    }
+    parts
+  };
+  let empty = Scope::default();
+  let ev = |t: &str| crate::c09::eval_text(&empty, t);
+  // shadowed entries: every visible name is bound again underneath, to the value of another name
+  let mut under = FeelContext::default();
+  for (i, (k, _)) in entries.iter().enumerate() {
+    let (_, other) = &entries[(i + 7) % entries.len()];
+    under.set_entry(k, other.clone());
+  }
+  // a context underneath a number, a context with other keys underneath a context
+  under.set_entry(&Name::from("n2"), ev("{a: 77, b: {a: 78}}"));
+  under.set_entry(&Name::from("c1"), ev("{a: 1, zz: 9}"));
+  let mut shadowed = vec![under.clone()];
+  shadowed.extend(split(rng, 2));
+  let mut shadowed1 = vec![under];
+  shadowed1.push(flat.clone());
+  let mut over_empty = vec![FeelContext::default()];
+  over_empty.extend(split(rng, 2));
+  vec![
+    ("one", vec![flat.clone()]),
+    ("two", split(rng, 2)),
+    ("three", split(rng, 3)),
+    ("over-empty", over_empty),
+    ("shadowed", shadowed),
+    ("shadowed-one", shadowed1),
+  ]
+}
+
+fn has_multi_segment_qualified_name(x: &Sexp) -> bool {
+  if let Sexp::List(xs) = x {
+    if let Some(Sexp::Atom(tag)) = xs.first() {
+      if tag == "qualifiedName" && xs.len() > 2 {
+        return true;
+      }
+    }
+    return xs.iter().any(has_multi_segment_qualified_name);
+  }
+  false
+}
+
+/// Family `shape` (the last clause of the property: "the result depends only on the expression
+/// text and on the values bound to its free names"): the same text is parsed and evaluated in
+/// scopes that have the same visible bindings and different shapes; the values must be equal
+/// (`Dmn.Eval.eval_depends_on_bindings_partial`; every evaluation is compared with the model too).
+fn shape_family(cfg: &Cfg, rep: &mut Report, model: &mut Model, vars: &Vars) {
+  let thorough = cfg.tier == "thorough";
+  let mut rng = Rng::new(cfg.seed ^ 0x5ca9e5);
+  let shapes = shaped_scopes(&mut rng);
+  let mut texts: Vec<String> = corpus().iter().map(|s| s.to_string()).collect();
+  for t in [
+    // interval endpoints are *qualified names* (`Scope::search_deep`), not paths
+    "[c1.a..10]",
+    "7 in [c1.a..10]",
+    "3 in (c1.a..c1.a]",
+    "[n2.a..100]",
+    "80 in [n2.a..100]",
+    "[n2.b.a..100]",
+    "[c1.zz..100]",
+    "9 in [c1.zz..100]",
+    "[1..c1.zz]",
+    "c1.a",
+    "c1.zz",
+    "n2.a",
+    "lk[3].k3.k4",
+    "{c1: {a: 2}, r: [c1.a..9]}.r",
+    "{c1: 1, r: [c1.a..9]}.r",
+    "(function(c1) [c1.a..9])({a: 3})",
+    "(function(c1) [c1.a..9])(4)",
+    "for c1 in [{a: 1}, 2] return [c1.a..9]",
+  ] {
+    texts.push(t.to_string());
+  }
+  {
+    let mut g = Gen { rng: &mut rng, fresh: 0 };
+    let n = if thorough { 20_000 } else { 700 };
+    let max_depth = if thorough { 5 } else { 3 };
+    for i in 0..n {
+      let d = 1 + (i as u32 % max_depth);
+      texts.push(g.any(d, vars));
+    }
+  }
+  let mut rows: Vec<(usize, usize, Case)> = vec![];
+  for (ti, t) in texts.iter().enumerate() {
+    for (si, (_, ctxs)) in shapes.iter().enumerate() {
+      if let Some(c) = run_case(t, ctxs, 8) {
+        rows.push((ti, si, c));
+      }
+    }
+  }
+  let reqs: Vec<String> = rows.iter().map(|(_, _, c)| c.request.clone()).collect();
+  let answers = model.ask_batch(&reqs);
+  // per text: the implementation's answer in the first shape that parsed it
+  let mut first: std::collections::BTreeMap<usize, (usize, String)> = Default::default();
+  for ((ti, si, c), both) in rows.iter().zip(answers.iter()) {
+    let ans = match Sexp::parse(both).as_ref().and_then(|x| x.as_list()) {
+      Some([m, ..]) => m.to_string(),
+      _ => both.clone(),
+    };
+    let label = shapes[*si].0;
+    rep.hit(&format!("shape:{}", label));
+    if ans == "(unsupported)" {
+      rep.hit("skipped:unsupported");
+    } else {
+      rep.case(&c.request, c.nontrivial);
+      if c.implementation != ans {
+        let sig = if ans.starts_with("(error") { "driver-error" } else { "evaluation differs from model (scope of another shape)" };
+        rep.disagree(Kind::ImplVsModel, "shape", sig, &format!("{} @ scope shape {}", c.text, label), &c.implementation, &ans);
+      }
+    }
+    match first.get(ti) {
+      None => {
+        first.insert(*ti, (*si, c.implementation.clone()));
+      }
+      Some((s0, v0)) => {
+        if *v0 != c.implementation {
+          let qn = Sexp::parse(&c.request).map(|x| has_multi_segment_qualified_name(&x)).unwrap_or(false);
+          let sig = if qn && label.starts_with("shadowed") {
+            "a qualified name (interval endpoint a.b) sees a shadowed binding of its first segment: the value depends on the shape of the scope"
+          } else {
+            "the value of an expression differs between two scopes with the same visible bindings"
+          };
+          rep.disagree(
+            Kind::ImplVsSpec,
+            "shape",
+            sig,
+            &format!("{} @ scope shapes {} / {}", c.text, shapes[*s0].0, label),
+            &c.implementation,
+            v0,
+          );
+        }
+      }
+    }
+  }
+  rep.extra.insert("shape_texts".into(), json!(texts.len()));
+  rep.extra.insert("shape_scopes".into(), json!(shapes.iter().map(|(l, c)| format!("{}:{}", l, c.len())).collect::<Vec<String>>()));
+}
+
 fn ast_kind(n: &AstNode) -> String {
   let s = format!("{:?}", n);
   s.split(|c| c == '(' || c == ' ' || c == '{').next().unwrap_or("").to_string()
@@ -604,6 +761,12 @@ pub fn run_with(cfg: &Cfg, property: &str) -> Report {
     "FEEL expression text generated from a typed grammar of the core fragment (arithmetic, comparison, and/or, if, between, in, lists, contexts, paths, filters, for/some/every with one and several variables over lists and ranges, function definition and positional/named invocation, instance of, ill-typed operands), depth ≤ 3 (quick) / ≤ 5 (thorough), parsed by the real parser in a two-context scope (with shadowing) that binds numbers, strings, booleans, nulls, lists, lists of contexts and contexts; a minimised corpus runs first. Non-trivial: the syntax tree has nesting depth ≥ 3; distinct by request line. Cases the exact-arithmetic model cannot compute (non-terminating division, results over 34 digits, built-in calls) are counted as `skipped_unsupported`.",
   );
   let (_, vars, ctxs) = base_scope();
+  // debugging aid: VHARNESS_C01_PROBE="text;text;…" prints what the implementation answers in the base scope
+  if let Ok(probe) = std::env::var("VHARNESS_C01_PROBE") {
+    for t in probe.split(';') {
+      eprintln!("PROBE {} => {}", t, run_case(t, &ctxs, 8).map(|c| c.implementation).unwrap_or_else(|| "(unparsable)".into()));
+    }
+  }
   let mut rng = Rng::new(cfg.seed);
   let thorough = cfg.tier == "thorough";
   if property == "C13" {
@@ -737,6 +900,9 @@ pub fn run_with(cfg: &Cfg, property: &str) -> Report {
         rep.disagree(Kind::ImplVsSpec, "repeat_eval", "repeated evaluation of a prepared expression gives a different value", t, &again.to_string(), &first.to_string());
       }
     }
+  }
+  if property == "C01" {
+    shape_family(cfg, &mut rep, &mut model, &vars);
   }
   rep.extra.insert("unparsable_generated".into(), json!(unparsable));
   rep.extra.insert("skipped_unsupported".into(), json!(skipped));
